@@ -3,7 +3,7 @@ LEVEL = "model_checking"
 TECHNIQUE = "CBMC bounded symbolic execution of evutil_inet_ntop/evutil_inet_pton/evutil_parse_sockaddr_port/evutil_format_sockaddr_port_ vs a strict reference parser (glibc algorithm transcribed), libc scanf/printf/strtol modelled"
 UNITS = ["evutil.c", "strlcpy.c"]
 FUNCTIONS = ["evutil_inet_ntop", "evutil_inet_pton", "evutil_inet_pton_scope", "evutil_parse_sockaddr_port", "evutil_format_sockaddr_port_", "event_strlcpy_"]
-BOUNDS = "ntop: every IPv4 address x len 0..18, every IPv6 address (2^128) x len 0..48; pton: every byte string of length <= L (v4 L=9, v6 L=7 quick / 10 and 9 thorough); sockaddr text round trip: every IPv4/IPv6 address and non-zero port"
+BOUNDS = "ntop: every IPv4 address x len 0..18, IPv6: every IPv4-compatible/-mapped address x len 0..24; hex form: quick = addresses with five consecutive zero words (3 placements) x len 0..41, thorough = every address (2^128) x len 0..41 plus parse-back of the full text; pton: every byte string of length <= L (v4 L=9, v6 L=7 quick / 10 and 9 thorough); sockaddr text round trip: every IPv4/IPv6 address and non-zero port"
 OUT = "strings longer than L (e.g. v4 components that overflow 2^32 need >= 10 digits); zone ids with real interface names (if_nametoindex stub returns 0); the platform's own inet_pton/inet_ntop are not encoded: the reference is a transcription of glibc's algorithm, cross-checked natively on 50M strings during development"
 TEXT = "Solver decides over all addresses and buffer lengths that a successful ntop is complete, terminated, inside the buffer and maps back to the same address under a strict parser, and over all short strings that pton accepts exactly the strict grammar with the same address."
 NOTE = "Trusted: cbmc; env/inet_fmt.h models of vsnprintf/sscanf/strtol (native replay links glibc instead, so model errors do not reproduce); ref/inet_ref.h."
@@ -14,6 +14,8 @@ def US(n):
     big = ["harness_ntop6_full.0", "harness_ntop6_len.0", "harness_ntop6_len.1", "event_strlcpy_.0", "event_strlcpy_.1", "ref_pton6.1", "ref_strlen.0", "strlen.0", "vsnprintf.0", "vsnprintf.1"]
     return ["%s:%d" % (l, n) for l in big] + ["vp_bytes.0:17", "ref_pton6.0:17", "ref_pton6.2:17", "ref_pton6.3:17", "memcmp.0:17", "vp_memcmp.0:17", "vp_memcpy.0:17", "vp_memset_b.0:70", "is_v4_form.0:11"]
 
+HEXLEN = dict(name="ntop6_hex_len", harness="C40_inet.c", entry="harness_ntop6_len", defines=["VP_DST=41", "VP_REF_NO_DOT"], unwind=11, timeout=3600, mem_gb=10,
+             unwindset=US(45), desc="same addresses, every len 0..41: success iff complete text + NUL fit, bytes equal the complete text, nothing written past len")
 HEXFULL = dict(name="ntop6_hex_full", harness="C40_inet.c", entry="harness_ntop6_full", defines=["VP_DST=41", "VP_REF_NO_DOT"], unwind=11, timeout=3000, mem_gb=10,
              unwindset=US(45), desc="all IPv6 addresses not of the IPv4-compatible/-mapped form, 41-byte buffer: succeeds, terminated, strict parser maps the text back")
 
@@ -23,8 +25,6 @@ def obligations(tier):
     L6 = 7 if q else 9
     obs = [
         dict(name="ntop4", harness="C40_inet.c", entry="harness_ntop4", unwind=21, timeout=600, mem_gb=6, desc="all IPv4 addresses, len 0..18"),
-        dict(name="ntop6_hex_len", harness="C40_inet.c", entry="harness_ntop6_len", defines=["VP_DST=41", "VP_REF_NO_DOT"], unwind=11, timeout=900, mem_gb=10,
-             unwindset=US(45), desc="same addresses, every len 0..41: success iff complete text + NUL fit, bytes equal the complete text, nothing written past len"),
         dict(name="ntop6_v4form_full", harness="C40_inet.c", entry="harness_ntop6_full", defines=["VP_DST=24", "VP_V4FORM"], unwind=11, timeout=900, mem_gb=10,
              unwindset=US(28), desc="all ::a.b.c.d / ::ffff:a.b.c.d addresses, 24-byte buffer: succeeds, terminated, maps back"),
         dict(name="ntop6_v4form_len", harness="C40_inet.c", entry="harness_ntop6_len", defines=["VP_DST=24", "VP_V4FORM"], unwind=11, timeout=900, mem_gb=10,
@@ -34,7 +34,14 @@ def obligations(tier):
              unwindset=["vp_memmove.0:17", "vp_memmove.1:17", "vp_memset_b.0:17", "vp_memcmp.0:17", "vp_memcpy.0:17", "ref_pton6.0:17", "ref_pton6.2:17", "ref_pton6.3:17", "evutil_inet_pton.2:9"],
              desc="all strings of length <= %d vs strict IPv6 text grammar" % L6),
     ]
+    # full 2^128 domain of the hex form needs > 900 s (UNSAT proof): thorough only; the quick tier decides the same
+    # obligation on three sub-domains with five zero words (gap in the middle / at the end / at the start)
+    for f, t in ((2, 6), (3, 7), (0, 4)):
+        o = dict(HEXLEN); o["name"] = "ntop6_hex_len_zero%d_%d" % (f, t); o["defines"] = HEXLEN["defines"] + ["VP_ZERO_FROM=%d" % f, "VP_ZERO_TO=%d" % t]
+        o["timeout"] = 900; o["desc"] = "words %d..%d zero, the other three words symbolic, every len 0..41: success iff complete text + NUL fit" % (f, t)
+        obs.append(o)
     if not q:
+        obs.append(HEXLEN)
         obs.append(HEXFULL)
         obs.append(dict(name="sockaddr_roundtrip", harness="C40_inet.c", entry="harness_sockaddr_roundtrip", unwind=130, timeout=2400, mem_gb=16, desc="format -> parse for all addresses, non-zero ports"))
     return obs
